@@ -8,6 +8,7 @@ from common import Check, impl_run, impl_run_parallel, NPROC
 import gen
 import trees
 import validators as V
+import c03gen
 from k03 import run_k03, validate_in_coq   # [agentH] K03: Model/Respond.v + Model/Wellformed.v against the real code
 
 CLS = {"GopherProtocol": "gopher", "SecureGopherProtocol": "sgopher", "GopherPlusProtocol": "gopherplus",
@@ -154,7 +155,10 @@ def malformed_stream(rng):
           b"/nonexist\t$\r\n", b"/nonexist\t+\r\n", b"/mail.mbox|/MBOX-MESSAGE/9999\t+\r\n", b"/mail.mbox|/MBOX-MESSAGE/9999\t!\r\n",
           b"/a.txt\tq\t+\r\n", b"/a.txt\t\t!\r\n", b"/mail.mbox\t$\r\n", b"/md\t$\r\n", b"/maps\t$\r\n", b"/umn\t$\r\n", b"/\t$\r\n",
           b"/empty.txt\t+\r\n", b"/emptydir\t+\r\n", b"/b.html\t!\r\n", b"/a.txt\t!\r\n", b"/mail.mbox|/MBOX-MESSAGE/1\t!\r\n",
-          b"/URL:http://x/\t!\r\n", b"/URL:http://x/\t+\r\n", b"/a.txt\t+application/x\r\n", b"/x\x00y\t+\r\n"]
+          b"/URL:http://x/\t!\r\n", b"/URL:http://x/\t+\r\n", b"/a.txt\t+application/x\r\n", b"/x\x00y\t+\r\n",
+          # attribute selection (the whole space of it: content_legs below)
+          b"/dir1\t$+ABSTRACT\r\n", b"/dir1\t!+VIEWS+ABSTRACT\r\n", b"/a.txt\t!+ABSTRACT\r\n", b"/\t$+ABSTRACT+VIEWS\r\n", b"/dir1\t$ +ABSTRACT\r\n",
+          b"/dir1\t$+NOSUCH\r\n", b"/umn\t$+ABSTRACT\r\n", b"/mail.mbox\t$+INFO\r\n"]
     out += [(g, False) for g in GP] + [(g, True) for g in GP[::2]]
     H = [b"GET  HTTP/1.0\r\n\r\n", b"GET /%zz HTTP/1.0\r\n\r\n", b"GET /a.txt?%zz=1 HTTP/1.0\r\n\r\n", b"GET /a.txt?searchrequest HTTP/1.0\r\n\r\n",
          b"GET /?=&= HTTP/1.0\r\n\r\n", b"HEAD /nonexistent HTTP/1.0\r\n\r\n", b"GET /PYGOPHERD-HTTPPROTO-ICONS/nope.gif HTTP/1.0\r\n\r\n",
@@ -192,6 +196,197 @@ def expected_kind(tree_index, sel):
     if ent is not None:
         return ent
     return None
+
+
+def content_legs(chk, tier, judge, stats):
+    """Two legs whose inputs the request stream above never contains (generators and readers in c03gen.py):
+    (a) Gopher+ attribute selection on every combination of own / children's attribute sidecars;
+    (b) mailboxes whose header fields are hostile to a parser, listed and fetched in every protocol.
+    Every reply goes through the common per-reply oracle `judge`; on top of it, from the property text ("exactly one
+    COMPLETE response"): a success status is followed by the body it announces -- the records of a listing do not depend
+    on which attribute blocks were asked for, a mailbox listing links every message, a message reply carries the message."""
+    rng = chk.rng
+    found = False
+    per_key = {}
+
+    def room(key, limit=2):
+        per_key[key] = per_key.get(key, 0) + 1
+        return per_key[key] <= limit
+
+    def proto_of(o):
+        m = re.search(r"\[(\w+)/", " ".join(o["log"]))
+        return CLS.get(m.group(1)) if m else None
+
+    def report(what, data, tls, o, tag, tree, extra):
+        rep = {"what": what, "request_latin1": gen.lat(data) if len(data) <= 4096 else gen.lat(data[:300]) + "...", "tls": tls,
+               "detected_protocol": proto_of(o), "handlers": "default", "response_latin1": o["out"][:600], "log": [l[:400] for l in o["log"][-4:]],
+               "tree": tree}
+        rep.update(extra)
+        chk.violation(rep, tag=tag)
+
+    # ---- (a) attribute selection ----
+    atree, adirs, aitems = c03gen.attr_tree(rng)
+    areqs = c03gen.attr_requests(rng, tier, adirs, aitems)
+    # ---- (b) hostile mailboxes ----
+    mtree, boxes = c03gen.mail_tree(rng, tier)
+    mreqs = c03gen.mail_requests(rng, tier, boxes)
+    # one world per slice of the requests (the trees are small; the requests of one mailbox stay together)
+    nsl = 6
+    ajobs = [{"op": "world", "tree": atree, "config": trees.SITE_CONFIG if k % 2 == 0 else dict(trees.SITE_CONFIG, **FULL_CONFIG),
+              "requests": [{"data": gen.lat(d), "tls": tl} for d, tl, _ in areqs[k::nsl]]} for k in range(nsl)]
+    by_box = {}
+    for i, (d, tl, meta) in enumerate(mreqs):
+        by_box.setdefault(meta["box"]["sel"], []).append(i)
+    groups = list(by_box.values())
+    mparts = [[i for g in groups[k::nsl] for i in g] for k in range(nsl)]
+    mjobs = [{"op": "world", "tree": mtree, "config": trees.SITE_CONFIG, "requests": [{"data": gen.lat(mreqs[i][0]), "tls": mreqs[i][1]} for i in part]}
+             for part in mparts]
+    res = impl_run_parallel(ajobs + mjobs, chunks=len(ajobs) + len(mjobs))
+    for r in res:
+        if not r["ok"]:
+            raise RuntimeError(r["err"] + "\n" + r.get("tb", ""))
+    aout = [None] * len(areqs)
+    for k in range(nsl):
+        for i, o in zip(range(k, len(areqs), nsl), res[k]["res"]["results"]):
+            aout[i] = o
+    mout = [None] * len(mreqs)
+    for part, r in zip(mparts, res[nsl:]):
+        for i, o in zip(part, r["res"]["results"]):
+            mout[i] = o
+
+    # (a) judging
+    stats["attr_selection_requests"] = len(areqs)
+    stats["attr_selection_answered_as_gopherplus"] = 0
+    base = {}
+    for i, (d, tl, meta) in enumerate(areqs):
+        if meta["suffix"] == "" and not tl:
+            base[(meta["sel"], meta["form"], i % 2)] = aout[i]
+
+    def records(o):
+        """the +INFO records of a successful Gopher+ attribute reply (None: not such a reply)"""
+        if proto_of(o) not in ("gopherplus", "sgopherplus"):
+            return None
+        try:
+            v = V.validate("gopherplus", o["out"].encode("latin-1"))
+        except V.Malformed:
+            return None
+        if v["kind"] != "success":
+            return None
+        return [r["info"] for r in c03gen.parse_attr_listing(v["body"])]
+
+    for i, ((d, tl, meta), o) in enumerate(zip(areqs, aout)):
+        cfgname = "default" if i % nsl % 2 == 0 else "full"
+        key = ("attr", meta["form"])
+        ex = {"tree": atree, "attribute_selection": meta, "handlers": cfgname}
+        chk.count(("attr", meta["sel"], meta["form"], meta["suffix"][:40], tl, cfgname), nontrivial=True)
+        if per_key.get(key, 0) >= 2:
+            continue
+        if judge(d, tl, "attr", o, cfgname, extra=ex, sub="attr-selection"):
+            found = True
+            room(key)
+            continue
+        if meta["form"] == "$" and not meta["listing"]:
+            continue        # '$' on a single object is answered with the object itself
+        try:
+            recs = records(o)
+        except V.Malformed as e:
+            found = True
+            room(key)
+            report("the Gopher+ success status is not followed by a well-formed attribute listing: %s" % e, d, tl, o,
+                   "malformed-reply:attr-selection:" + meta["form"], atree, ex)
+            continue
+        if recs is None:
+            continue
+        stats["attr_selection_answered_as_gopherplus"] += 1
+        # the same object asked without a selection, under either handler list (the records do not depend on it)
+        for b in (base.get((meta["sel"], meta["form"], 0)), base.get((meta["sel"], meta["form"], 1))):
+            if b is None:
+                continue
+            try:
+                brecs = records(b)
+            except V.Malformed:
+                brecs = None
+            if brecs is not None and brecs != recs:
+                found = True
+                room(key)
+                missing = [r for r in brecs if r not in recs]
+                report("a Gopher+ reply that selects attribute blocks announces success but does not carry the records of the object: "
+                       "%d record(s) without a selection, %d with it; missing e.g. %r" % (len(brecs), len(recs), missing[:2]), d, tl, o,
+                       "incomplete-reply:attr-selection:" + meta["form"], atree, dict(ex, records_without_selection=[gen.lat(r) for r in brecs[:20]],
+                                                                                     records_with_selection=[gen.lat(r) for r in recs[:20]]))
+                break
+
+    # (b) judging
+    stats["hostile_mailbox_requests"] = len(mreqs)
+    stats["hostile_mailboxes"] = len(boxes)
+    stats["hostile_messages"] = sum(len(b["markers"]) for b in boxes) // 2
+    seen_markers = {}
+    for (d, tl, meta), o in zip(mreqs, mout):
+        box, proto = meta["box"], meta["proto"]
+        n = len(box["markers"])
+        ob = o["out"].encode("latin-1")
+        key = ("mail", meta["what"], proto)
+        kind = "mbox" if box["flag"] == "MBOX-MESSAGE" else "maildir"
+        ex = {"tree": [e for e in mtree if ("/" + e["path"]).startswith(box["sel"])], "mailbox": box["sel"], "messages_by_label": box["labels"],
+              "asked": {k: v for k, v in meta.items() if k != "box"}}
+        chk.count(("mail", box["sel"], meta["what"], meta.get("num"), proto, meta["form"]), nontrivial=True)
+        if per_key.get(key, 0) >= 1:
+            continue
+        if judge(d, tl, "mail", o, "default", extra=ex, sub="%s-content" % kind):
+            found = True
+            room(key)
+            continue
+        try:
+            v = V.validate(proto, ob)
+        except V.Malformed:
+            continue        # answered in another protocol's syntax than the request's: not this leg's business
+        why = None
+        if meta["what"] == "past-end":
+            if v["kind"] != "error":
+                why, tg = "message number %d of a mailbox of %d messages is not answered with an error" % (meta["num"], n), "past-end"
+        elif v["kind"] != "success":
+            why, tg = "a %s of a mailbox that exists is answered with an error: %r" % (meta["what"], ob[:120]), "refused"
+        elif meta["what"] == "listing" and meta["form"] != "!":
+            got = c03gen.listed_messages(ob)
+            if got != list(range(1, n + 1)):
+                why, tg = "the listing of a mailbox of %d messages links messages %r" % (n, got), "incomplete-listing"
+            else:
+                # read the way the protocol's own client reads it: one item per message, nothing else (a title must not be
+                # able to end its line or its field)
+                try:
+                    items = c03gen.listing_links(proto, meta["form"], v["body"])
+                    if sorted(x for x in items if x is not None) != got or (None in items and proto != "wap" and not proto.startswith("http")):
+                        why, tg = "a client reads %d items (message numbers %r) in the listing of a mailbox of %d messages" % (len(items), items, n), "listing-items"
+                except V.Malformed as e:
+                    why, tg = "the listing of the mailbox is not a well-formed menu: %s" % e, "malformed-listing"
+        elif meta["what"] == "message" and meta["form"] != "!":
+            ms = [m for m in box["markers"] if m.encode() in ob]
+            if len(ms) != 1:
+                why, tg = "the reply to message %d carries the body of %d of the stored messages" % (meta["num"], len(ms)), "message-body"
+            else:
+                prev = seen_markers.setdefault((box["sel"], meta["num"]), ms[0])
+                if prev != ms[0]:
+                    why, tg = "message %d is a different stored message in different protocols (%s, %s)" % (meta["num"], prev, ms[0]), "message-identity"
+        if why:
+            found = True
+            room(key)
+            report(why, d, tl, o, "%s:%s-content:%s" % (tg, kind, proto), ex["tree"], ex)
+    # every stored message is reachable under exactly one number
+    for box in boxes:
+        nums = {}
+        for (sel, num), m in seen_markers.items():
+            if sel == box["sel"]:
+                nums.setdefault(m, []).append(num)
+        asked = sorted(k for (sel, k) in seen_markers if sel == box["sel"])
+        chk.count(("mail-reach", box["sel"]), nontrivial=True)
+        if asked == list(range(1, len(box["markers"]) + 1)) and (set(nums) != set(box["markers"]) or any(len(v) != 1 for v in nums.values())):
+            if room(("mail", "reach")):
+                found = True
+                chk.violation({"what": "the messages of a mailbox are not each reachable under exactly one number",
+                               "mailbox": box["sel"], "numbers_by_body_marker": nums, "stored": box["markers"],
+                               "tree": [e for e in mtree if ("/" + e["path"]).startswith(box["sel"])]},
+                              tag="message-identity:%s-content" % ("mbox" if box["flag"] == "MBOX-MESSAGE" else "maildir"))
+    return found
 
 
 def run(tier):
@@ -324,8 +519,9 @@ def run(tier):
     sizes = {"/" + e["path"].encode("latin-1").decode("utf-8", "surrogateescape"): len(e.get("data", "")) for e in tree
              if e.get("kind", "file") == "file"}
     stats = {"empty_replies": 0, "malformed": 0, "internal_errors": 0, "slow": 0, "history_diffs": 0}
-    def judge(data, tls, label, o, cfgname, transport="memory", extra=None):
-        """the per-reply oracle; reports and returns True when the reply violates the property"""
+    def judge(data, tls, label, o, cfgname, transport="memory", extra=None, sub=None):
+        """the per-reply oracle; reports and returns True when the reply violates the property
+        (sub: the stable class of the failing input, for the legs that know it better than the request text tells)"""
         ob = o["out"].encode("latin-1")
         m = re.search(r"\[(\w+)/", " ".join(o["log"]))
         cls = m.group(1) if m else None
@@ -374,8 +570,10 @@ def run(tier):
             stats["slow"] += 1
         if why:
             # stable classification of the failing input for known-findings matching
-            sub = "other"
-            if b"MBOX-MESSAGE" in data or b"MAILDIR-MESSAGE" in data:
+            given_sub, sub = sub, "other"
+            if given_sub is not None:
+                sub = given_sub
+            elif b"MBOX-MESSAGE" in data or b"MAILDIR-MESSAGE" in data:
                 sub = "message-number"
             elif b"[" in data or b"]" in data:
                 sub = "gemini-bracket"
@@ -498,6 +696,10 @@ def run(tier):
                            "log": o["log"][-4:], "tree": ftree}, tag=f"io-fault-reply:{proto}:{gp or 'plain'}")
 
     lap("io faults")
+    # ---- the rarely used request forms and the stored content that is hostile to a parser (c03gen.py) ----
+    if content_legs(chk, tier, judge, stats):
+        found = True
+    lap("attribute selection + hostile mailboxes")
     # ---- live leg: the real ThreadingTCPServer and GopherRequestHandler on a TCP socket, real (TLS) clients; a handler list
     # with the handlers that hand the connection's descriptor to a child process.  What the client receives is judged by
     # the same validators, and must be what the in-memory transport delivered for the same request ----
@@ -671,7 +873,9 @@ def run(tier):
                                   labels={l: sum(1 for r in reqs if r[2] == l) for l in ("malformed", "climber", "benign", "random")})
     chk.coverage["rule"] = ("a hand-written malformed stream per protocol syntax + climbers + every path of a generated tree in 9 protocol "
                             "variants + random bytes, each served alone under the default and a full handler list and again after 1-6 earlier "
-                            "read-only requests; each reply validated by independent per-protocol parsers; non-trivial = not a benign existing path")
+                            "read-only requests; each reply validated by independent per-protocol parsers; non-trivial = not a benign existing path; "
+                            "plus (c03gen.py) every form of Gopher+ attribute selection on every combination of own / children's attribute "
+                            "sidecars, and mailboxes (mbox + Maildir) with hostile header fields listed and fetched in every protocol")
     # ---- [agentH] correspondence K03: response bytes of every protocol class vs Model/Respond.v, and the
     # Coq validators of Model/Wellformed.v vs validators.py on every reply of the request stream above ----
     lap("soak")
